@@ -180,7 +180,7 @@ class Ctx:
             while cl.violations:
                 v = cl.violations.pop(0)
                 sig = {}
-                for k in ('diagnosis',):
+                for k in ('diagnosis', 'cause'):
                     if k in v:
                         sig[k] = v[k]
                 self.violate(v.pop('property'), v.pop('clause'),
@@ -203,6 +203,7 @@ class Ctx:
         if exc is None:
             return
         site = innermost_pymap_frame(exc)
+        cl.conn.failure = (type(exc).__name__, site)
         if isinstance(exc, HangDetected):
             self.violate('C06', 'hang', 'server callback did not return '
                          'within the wall watchdog', session=cl.sid,
@@ -302,9 +303,11 @@ class Ctx:
                 torn = conn.client_reset or \
                     (conn.task is not None and conn.task.cancelled())
                 if conn.done and not torn:
+                    cause = getattr(conn, 'failure', None)
                     cl.violate('C07', 'wire.truncated',
                                'stream ended inside a response: %r'
-                               % left[:80])
+                               % left[:80],
+                               cause=cause[1] if cause else 'none')
         self.collect()
 
     def close(self) -> None:
